@@ -617,6 +617,8 @@ fn default_writer(
             sval::stream_display(&mut *stream, self.0.tpl())?;
             stream.record_value_end(None, &sval::Label::new(KEY_TPL))?;
 
+            let mut r = Ok(());
+
             let _ = self.0.props().dedup().for_each(|k, v| {
                 match (|| {
                     stream.record_value_begin(None, &sval::Label::new_computed(k.get()))?;
@@ -626,9 +628,15 @@ fn default_writer(
                     Ok::<(), sval::Error>(())
                 })() {
                     Ok(()) => ControlFlow::Continue(()),
-                    Err(_) => ControlFlow::Break(()),
+                    Err(e) => {
+                        r = Err(e);
+                        ControlFlow::Break(())
+                    }
                 }
             });
+
+            // A property that failed to stream leaves the record incomplete
+            r?;
 
             stream.record_end(None, None, None)
         }
